@@ -437,6 +437,30 @@ func c06Exec(run *ev.Run, cs ev.Case) {
 				return
 			}
 		}
+		// the session's own Set / Get Session Privilege Level methods, in every order a caller might use
+		// them: "get" is a request for level 0 (no change) whatever was set before
+		if sess, ok := c.conn.(*bmc.V2Session); ok {
+			for i := 0; i < 40; i++ {
+				lvl := []int{2, 3, 4, 5, 1, 4, 2}[i%7]
+				set := i%3 != 2
+				want := uint64(0)
+				if set {
+					want = uint64(lvl)
+				}
+				g := genCmd{Cmd: &ipmi.SetSessionPrivilegeLevelCmd{}, NetFn: 6, CmdNo: 0x3b, Label: "setpriv", Want: refcodec.Fields{"privilege": want}, OkBody: []byte{byte(lvl)}, SerFail: set && lvl == 1,
+					Call: func(ctx context.Context, _ bmc.Connection) (ipmi.CompletionCode, error) {
+						if set {
+							_, err := sess.SetSessionPrivilegeLevel(ctx, ipmi.PrivilegeLevel(lvl))
+							return 0, err
+						}
+						_, err := sess.GetSessionPrivilegeLevel(ctx)
+						return 0, err
+					}}
+				if !do(g, fmt.Sprintf("method:%v:%d", set, lvl)) {
+					return
+				}
+			}
+		}
 	case "chassiscontrol":
 		for v := 0; v < 16; v++ {
 			cmd := &ipmi.ChassisControlCmd{Req: ipmi.ChassisControlReq{ChassisControl: ipmi.ChassisControl(v)}}
@@ -599,6 +623,14 @@ func c06Exec(run *ev.Run, cs ev.Case) {
 						return
 					}
 				}
+			}
+		}
+		// periods beyond what the byte can express: the encoding saturates at its maximum, 63 days (the
+		// library documents this; C20 enumerates every second up to 65 days), it does not wrap
+		for _, days := range []int{64, 65, 90, 100, 127, 128, 200, 365, 1000, 10000} {
+			cmd := &dcmi.GetPowerReadingCmd{Req: dcmi.GetPowerReadingReq{Mode: dcmi.SystemPowerStatisticsModeEnhanced, Period: time.Duration(days) * 24 * time.Hour}}
+			if !do(genCmd{Cmd: cmd, NetFn: 0x2c, CmdNo: 0x02, Label: "power", Want: refcodec.Fields{"mode": 2, "period": 0xff}, OkBody: okBody}, fmt.Sprintf("days-%d", days)) {
+				return
 			}
 		}
 	case "sensorinfo":
